@@ -1613,7 +1613,7 @@ func init() {
 					}
 					r, rr := matchReal(p, nd), matchReal(pr, nd)
 					emit(map[string]any{"ev": "Match", "st": st.term(), "data": jsonOf(nd), "match": r.match, "partial": r.partial,
-						"panic": r.panicked != "" || rr.panicked != "", "rmatch": rr.match, "rpartial": rr.partial, "catalogue": key, "point": pt})
+						"panic": r.panicked != "" || rr.panicked != "", "rmatch": rr.match, "rpartial": rr.partial, "ematch": r.match, "epartial": r.partial, "catalogue": key, "point": pt})
 				}
 			}
 		}
